@@ -462,11 +462,11 @@ def check_C18(tier, ev):
 
 def check_C20(tier, ev):
     ev.rule = ("TLC enumerates every sequence of up to MaxSteps with_* steps (every subset, every permutation, repeated steps) of "
-               "AppBuilder (11 slots, followed by build) and of ContractWrapper (with_sudo/_empty, with_reply/_empty, "
+               "AppBuilder (11 slots plus four boundary-VALUE steps: a block of height 0 / time 0 / empty chain id, a storage that already holds data; followed by build) and of ContractWrapper (with_sudo/_empty, with_reply/_empty, "
                "with_migrate/_empty, with_checksum); each sequence is applied to the real builder in a run-time loop (slots "
                "normalised to tagged harness types; the k-th step supplies the value tagged k); observed: which tagged component "
-               "serves every message kind, api, block, storage, what the initialisation function is handed and how often it "
-               "runs, which supplied function serves sudo/reply/migrate, checksum(). Five compile-time sequences start from "
+               "serves every message kind, api, the whole BlockInfo, the storage object and its supplied contents, what the initialisation function is handed and how often it "
+               "runs, which supplied function serves sudo/reply/migrate, checksum(). Seven compile-time sequences start from "
                "the library's real defaults. Non-trivial = sequences of at least two steps (distinct sequences counted).")
     ev.assumptions += ["generically typed slots cannot be mixed up by construction (type system); the check observes run-time identity"]
     cfg = f"mc/MC_Builder_{tier}.cfg"
@@ -783,7 +783,7 @@ def check_chain(tier, ev):
 
 # ---- staking ------------------------------------------------------------------------------------
 STAKING = {
-    "C14": dict(quick=["quick", "quick4", "overlap", "dust"], thorough=["quick", "thorough", "overlap", "dust", "rewards_deep"],
+    "C14": dict(quick=["quick", "quick4", "overlap", "dust", "unbond0"], thorough=["quick", "thorough", "overlap", "dust", "rewards_deep", "unbond0"],
                 focus="panic,ok.delegate,ok.undelegate,ok.redelegate,ok.advance,ok.set_withdraw,bal.delegate,bal.undelegate,"
                       "bal.redelegate,bal.advance,bal.set_withdraw,stake.delegate,stake.undelegate,stake.redelegate,"
                       "stake.advance,stake.withdraw,stake.set_withdraw",
@@ -791,7 +791,7 @@ STAKING = {
     "C15": dict(quick=["rewards", "quick"], thorough=["rewards", "rewards_deep", "thorough"],
                 focus="ok.withdraw,reward,bal.withdraw,panic.withdraw",
                 need=["withdraw", "nonzero_reward_shown", "slash"]),
-    "C16": dict(quick=["drift", "quick4", "quick"], thorough=["drift", "thorough", "dust"],
+    "C16": dict(quick=["drift", "quick4", "quick", "unbond0"], thorough=["drift", "thorough", "dust", "unbond0"],
                 focus="ok.slash,stake.slash,bal.slash,bal.advance.slash,panic.slash,reward.slash",
                 need=["slash", "pending_unbonding", "undelegate"]),
 }
